@@ -26,7 +26,8 @@ TPool == /\ IsEvent("pool")
 
 Mis(kind) == PrintT(<<"MISMATCH", l, kind>>)
 
-EvOp == CASE Ev.op = "new" -> [op |-> "new", up |-> Ev.up, oneway |-> Ev.oneway, retry |-> Ev.retry]
+EvOp == CASE Ev.op = "new" -> [op |-> "new", up |-> Ev.up, oneway |-> Ev.oneway, retry |-> Ev.retry, i |-> IF Has(Ev, "i") THEN Ev.i ELSE 0]
+          [] Ev.op = "dclose" -> [op |-> "dclose", i |-> Ev.i]
           [] Ev.op \in {"resp", "reset", "rreset"} -> [op |-> Ev.op, s |-> Ev.s]
           [] Ev.op \in {"goaway", "rclose", "garbage"} -> [op |-> Ev.op, c |-> Ev.c]
           [] OTHER -> [op |-> Ev.op]
@@ -42,6 +43,7 @@ MReq(r)    == Ev.req = ReqBook(r.m) /\ Ev.greq = r.m.act
 MConn(r)   == Ev.gconn = r.m.cact
 (* the client of an index that is Connected is the one the spec designates, it is open, and it counts
    exactly its open streams; a designated usable client is visible as Connected *)
+MDown(r)   == Has(Ev, "dclosed") => S(Ev.dclosed) = r.m.dclosed
 MSlots(r)  == /\ \A k \in DOMAIN Ev.slots : LET o == Ev.slots[k] IN
                     o.st = Connected => /\ o.i \in Idx /\ r.m.slot[o.i] = o.c
                                         /\ o.c \in Conns /\ r.m.cst[o.c] = "open" /\ o.c \notin r.m.ga
@@ -75,7 +77,7 @@ TOp ==
               R3 == {r \in R2 : MLive(r)}
               R4 == {r \in R3 : MReq(r)}
               R5 == {r \in R4 : MConn(r)}
-              R6 == {r \in R5 : MSlots(r)}
+              R6 == {r \in R5 : MSlots(r) /\ MDown(r)}
               kind == IF R = {} THEN "operation-not-enabled"
                       ELSE IF R1 = {} THEN ResultKind(R)
                       ELSE IF R2 = {} THEN OpenKind(R1)
